@@ -537,3 +537,78 @@ func init() {
 		return Tuple{sliceOf(cells), Iface{}}, actDone
 	})
 }
+
+// ---- time.Ticker: a channel the harness feeds with verifrt.Tick() ----
+
+func init() {
+	reg := func(name string, f intrinsic) { intrinsics[name] = f }
+	reg("time.NewTicker", func(r *Run, g *G, a []Value) (Value, action) {
+		tp := r.eng.pkgs["time"].Type("Ticker").Type()
+		p := new(Value)
+		st := zero(tp).(Struct)
+		ch := r.newChan(1, nil)
+		st[0] = ch
+		*p = st
+		r.tickers = append(r.tickers, ch)
+		return Ptr(p), actDone
+	})
+	reg("(*time.Ticker).Stop", func(r *Run, g *G, a []Value) (Value, action) { return nil, actDone })
+	reg("(*time.Ticker).Reset", func(r *Run, g *G, a []Value) (Value, action) { return nil, actDone })
+	reg(vrt+"Tick", func(r *Run, g *G, a []Value) (Value, action) {
+		tt := r.eng.pkgs["time"].Type("Time").Type()
+		// the runtime fires tickers: no happens-before edge from the harness goroutine
+		saved := r.hb
+		r.hb = nil
+		for _, ch := range r.tickers {
+			if len(ch.buf) < ch.cap || len(ch.recvq) > 0 {
+				r.trySend(g, ch, zero(tt))
+			}
+		}
+		r.hb = saved
+		return nil, actSync
+	})
+}
+
+// ---- sync/atomic.Value (its real body reinterprets memory through unsafe pointers) ----
+
+func init() {
+	reg := func(name string, f intrinsic) { intrinsics[name] = f }
+	get := func(r *Run, p Ptr) Value {
+		if v, ok := r.attach[p]; ok {
+			return v
+		}
+		return Iface{}
+	}
+	reg("(*sync/atomic.Value).Load", func(r *Run, g *G, a []Value) (Value, action) {
+		p := a[0].(Ptr)
+		r.hbAtomicLoad(g, p)
+		return get(r, p), actSync
+	})
+	reg("(*sync/atomic.Value).Store", func(r *Run, g *G, a []Value) (Value, action) {
+		p := a[0].(Ptr)
+		if iv, ok := a[1].(Iface); ok && iv.t == nil {
+			r.goPanic(g, Iface{t: r.eng.runtimeErrorType, v: "sync/atomic: store of nil value into Value"}, "sync/atomic: store of nil value into Value")
+			return nil, actPanic
+		}
+		r.hbAtomicStore(g, p)
+		r.attach[p] = a[1]
+		return nil, actSync
+	})
+	reg("(*sync/atomic.Value).Swap", func(r *Run, g *G, a []Value) (Value, action) {
+		p := a[0].(Ptr)
+		r.hbAtomic(g, p)
+		old := get(r, p)
+		r.attach[p] = a[1]
+		return old, actSync
+	})
+	reg("(*sync/atomic.Value).CompareAndSwap", func(r *Run, g *G, a []Value) (Value, action) {
+		p := a[0].(Ptr)
+		r.hbAtomic(g, p)
+		eq, ok := safeEq(get(r, p), a[1])
+		if ok && eq == true {
+			r.attach[p] = a[2]
+			return true, actSync
+		}
+		return false, actSync
+	})
+}
